@@ -1362,11 +1362,15 @@ func (p *process) LinkNode(target gen.Atom) error {
 		return gen.ErrTargetExist
 	}
 
+	// create the relation first: the connection can be lost right after GetNode
+	p.node.targetManager.AddLink(p.pid, target)
 	if _, err := p.Node().Network().GetNode(target); err != nil {
+		if rerr := p.node.targetManager.RemoveLink(p.pid, target); rerr != nil {
+			// already taken by the node-down routine: the notification is on its way
+			return nil
+		}
 		return err
 	}
-
-	p.node.targetManager.AddLink(p.pid, target)
 
 	return nil
 }
@@ -1558,10 +1562,15 @@ func (p *process) MonitorNode(target gen.Atom) error {
 		return gen.ErrTargetExist
 	}
 
+	// create the relation first: the connection can be lost right after GetNode
+	p.node.targetManager.AddMonitor(p.pid, target)
 	if _, err := p.Node().Network().GetNode(target); err != nil {
+		if rerr := p.node.targetManager.RemoveMonitor(p.pid, target); rerr != nil {
+			// already taken by the node-down routine: the notification is on its way
+			return nil
+		}
 		return err
 	}
-	p.node.targetManager.AddMonitor(p.pid, target)
 	return nil
 }
 
